@@ -241,3 +241,62 @@ theorem padded_eq_dilate (x : List Bool) (p : Nat) (guard : ∀ s ∈ tsRising x
       rw [inSlices_iff x p i hi guard]
 
 end Psi.EpochsExt
+
+namespace Psi.EpochsExt
+open Psi.Epochs
+
+/-- repaired code: the slice before a rising edge is clipped at the array start, for every `p` -/
+theorem pySlice_before_fixed (n s p : Nat) (hs : s < n) :
+    pySlice n (max ((s : Int) - (p : Int)) 0) (s : Int) = (s - p, s) := by
+  simp only [pySlice, adjust]
+  have h1 : ¬ (max ((s : Int) - (p : Int)) 0 < 0) := by omega
+  have h2 : ¬ (max ((s : Int) - (p : Int)) 0 ≥ (n : Int)) := by omega
+  have h3 : ¬ ((s : Int) < 0) := by omega
+  have h4 : ¬ ((s : Int) ≥ (n : Int)) := by omega
+  simp only [h1, h2, h3, h4, if_false]
+  congr 1 <;> omega
+
+theorem inSlicesFixed_iff (x : List Bool) (p i : Nat) (hi : i < x.length) :
+    inSlices (padSlicesFixed x (p : Int)) i = true ↔
+      (∃ s ∈ tsRising x, s - p ≤ i ∧ i < s) ∨ (∃ e ∈ tsFalling x, e ≤ i ∧ i < e + p) := by
+  simp only [inSlices, List.any_eq_true, padSlicesFixed, List.mem_append, List.mem_map, Bool.and_eq_true,
+    decide_eq_true_eq]
+  constructor
+  · rintro ⟨sl, (⟨s, hs, rfl⟩ | ⟨e, he, rfl⟩), h1, h2⟩
+    · have hsn : s < x.length := lt_length_of_getElem? ((mem_tsRising x s).mp hs).2.1
+      rw [pySlice_before_fixed _ _ _ hsn] at h1 h2
+      exact Or.inl ⟨s, hs, h1, h2⟩
+    · have hen : e < x.length := lt_length_of_getElem? ((mem_tsFalling x e).mp he).2.1
+      rw [pySlice_after _ _ _ hen] at h1 h2
+      exact Or.inr ⟨e, he, h1, by simp only at h2; omega⟩
+  · rintro (⟨s, hs, h1, h2⟩ | ⟨e, he, h1, h2⟩)
+    · have hsn : s < x.length := lt_length_of_getElem? ((mem_tsRising x s).mp hs).2.1
+      refine ⟨_, Or.inl ⟨s, hs, rfl⟩, ?_⟩
+      rw [pySlice_before_fixed _ _ _ hsn]
+      exact ⟨h1, h2⟩
+    · have hen : e < x.length := lt_length_of_getElem? ((mem_tsFalling x e).mp he).2.1
+      refine ⟨_, Or.inr ⟨e, he, rfl⟩, ?_⟩
+      rw [pySlice_after _ _ _ hen]
+      exact ⟨h1, by simp only; omega⟩
+
+theorem paddedFixed_eq_dilate (x : List Bool) (p : Nat) : paddedFixed x (p : Int) = dilate x p := by
+  apply List.ext_getElem
+  · unfold paddedFixed
+    split <;> simp [dilate_length]
+  · intro i h1 h2
+    have hi : i < x.length := by rw [dilate_length] at h2; exact h2
+    rw [Bool.eq_iff_iff, dilate_getElem_iff, ← edges_iff_dilation x p i hi]
+    by_cases hp : (p : Int) = 0
+    · have hp0 : p = 0 := by omega
+      subst hp0
+      simp only [paddedFixed, hp, if_true]
+      constructor
+      · exact Or.inl
+      · rintro (h | ⟨s, _, a1, a2⟩ | ⟨e, _, a1, a2⟩)
+        · exact h
+        · omega
+        · omega
+    · simp only [paddedFixed, hp, if_false, List.getElem_mapIdx, Bool.or_eq_true]
+      rw [inSlicesFixed_iff x p i hi]
+
+end Psi.EpochsExt
